@@ -117,30 +117,31 @@ type loopInfo struct {
 }
 
 type Frame struct {
-	x          *Exec
-	fn         *ssa.Function
-	prefix     string
-	env        map[ssa.Value]SV
-	depth      int
-	stack      []string
-	contract   *Contract
-	isRoot     bool
-	reach      map[*ssa.BasicBlock]string
-	out        map[*ssa.BasicBlock]*State
-	edge       map[[2]int]string // (from,to) -> guard (reach_from && cond)
-	rets       []retInfo
-	defers     []deferInfo
-	loops      map[*ssa.BasicBlock]*loopInfo
-	backEdge   map[[2]int]bool
-	entrySt    *State
-	params     map[string]SV
-	paramSorts map[string]string
-	parent     *Frame
-	callBlock  *ssa.BasicBlock
-	curBlock   *ssa.BasicBlock
-	loopBody   map[*ssa.BasicBlock]map[*ssa.BasicBlock]bool
-	nowrap     bool
-	debugAll   map[string][]ssa.Value // source name -> values bound to it (from DebugRef), in execution order
+	x           *Exec
+	fn          *ssa.Function
+	prefix      string
+	env         map[ssa.Value]SV
+	depth       int
+	stack       []string
+	contract    *Contract
+	isRoot      bool
+	reach       map[*ssa.BasicBlock]string
+	out         map[*ssa.BasicBlock]*State
+	edge        map[[2]int]string // (from,to) -> guard (reach_from && cond)
+	rets        []retInfo
+	defers      []deferInfo
+	loops       map[*ssa.BasicBlock]*loopInfo
+	backEdge    map[[2]int]bool
+	entrySt     *State
+	params      map[string]SV
+	paramSorts  map[string]string
+	parent      *Frame
+	callBlock   *ssa.BasicBlock
+	curBlock    *ssa.BasicBlock
+	loopBody    map[*ssa.BasicBlock]map[*ssa.BasicBlock]bool
+	nowrap      bool
+	debugAll    map[string][]ssa.Value // source name -> values bound to it (from DebugRef), in execution order
+	debugStatic map[string][]ssa.Value
 }
 
 func (f *Frame) c() *Ctx { return f.x.c }
